@@ -220,6 +220,7 @@ func runC11(c *Ctx, tier string) {
 	runC01Channels(c, "C11")
 	runC11N1(c, append([]string{""}, c11ReaderPkgs...)...)
 	runDecoderCursorBound(c, "C11-B1")
+	runPullDoneStopsReader(c, "C11-O5")
 }
 
 func init() {
